@@ -94,6 +94,7 @@ func (w *_watcher) run() {
 	var curVersion string
 
 	var retry *time.Timer
+	retrych := make(chan string)
 
 mainloop:
 	for {
@@ -122,8 +123,19 @@ mainloop:
 
 			session.stop()
 			session = nullWatchSession{}
-			outch = nil
-			retry = w.scheduleRetry(w.resetch, curVersion)
+			retry = w.scheduleRetry(retrych, curVersion)
+
+		case <-retrych:
+			if retry == nil {
+				// superseded by a reset
+				continue
+			}
+			retry = nil
+
+			// reconnect after the last event taken; the output channel (and
+			// what it still buffers) is kept: the controller is reading it.
+			w.log.Debugf("retrying from version %v", curVersion)
+			session = newWatchSession(ctx, w.log, w.client, curVersion)
 
 		case evt := <-session.events():
 
